@@ -87,6 +87,12 @@ class Ref:
         return 'Ref(%s%s)' % (self.what, '' if self.data is None else ':%r' % (self.data,))
 
 
+class _Alias:
+    """Value of a local of reference type: the lvalue it is bound to."""
+    def __init__(self, lv):
+        self.lv = lv
+
+
 class Path:
     def __init__(self, fields, pc=T):
         self.fields = fields
@@ -188,6 +194,17 @@ class Interp:
                         q.locals[d['id']] = app('uninit:' + d.get('name', ''), ti[0]) if ti else Ref('uninit', d.get('name'))
                         new.append(q)
                         continue
+                    if qt(d).rstrip().endswith('&') and not qt(d).rstrip().endswith('&&'):
+                        # T &name = <lvalue>: the name is an alias of that storage
+                        try:
+                            lvs = self.lval(init[-1], q)
+                        except AnalysisBroken:
+                            lvs = None
+                        if lvs is not None and all(lv[0] in ('field', 'deref', 'mem') for _, lv in lvs):
+                            for q2, lv in lvs:
+                                q2.locals[d['id']] = _Alias(lv)
+                                new.append(q2)
+                            continue
                     for q2, v in self.expr(init[-1], q):
                         q2.locals[d['id']] = self.convert(v, init[-1], d)
                         new.append(q2)
@@ -417,6 +434,9 @@ class Interp:
         if k == 'DeclRefExpr':
             r = n.get('referencedDecl', {})
             if r.get('kind') in ('VarDecl', 'ParmVarDecl', 'BindingDecl'):
+                al = p.locals.get(r['id'])
+                if isinstance(al, _Alias):
+                    return [(p, al.lv)]
                 return [(p, ('local', r['id'], n))]
             raise AnalysisBroken('unsupported reference %s at %s' % (r.get('kind'), pos(n)))
         if k == 'CXXOperatorCallExpr':
@@ -848,6 +868,8 @@ class Interp:
             raise AnalysisBroken('unsupported operator call %s at %s' % (name, pos(n)))
         if kind == 'method':
             o = strip_noncast(obj) if obj else None
+            while o is not None and o['kind'] == 'ImplicitCastExpr' and o.get('castKind') == 'NoOp' and children(o):
+                o = strip_noncast(children(o)[0])      # this -> const T* for a call of a const member
             if o is not None and o['kind'] == 'CXXThisExpr':
                 f = self.idx.func_by_id.get(did)
                 r = self.h.member_call(self, n, name, obj, args, p)
